@@ -451,6 +451,11 @@ func (g *genCtx) policy() PolicySpec {
 	default:
 		p.DelayP = 0.1
 	}
+	if g.profile == "C12" {
+		p.ReplyP = Pick(r, []float64{0, 0.2, 0.5})
+	} else if r.Bool(0.1) {
+		p.ReplyP = 0.1
+	}
 	return p
 }
 
